@@ -93,7 +93,14 @@ def source_pattern() -> str:
                 return node.value
     except (OSError, SyntaxError):
         pass
-    raise RuntimeError("extraction pattern not found in the source")
+    # the source no longer spells a pattern (e.g. the scan was rewritten without `re`): the reference pattern of the model;
+    # the real extraction function is still what `extract` / `textdoc` lines and the Python oracles call
+    global PATTERN_LOCATED
+    PATTERN_LOCATED = False
+    return '<script type="application/json" data-html-dependency="">((?:.|\\r|\\n)*?)</script>'
+
+
+PATTERN_LOCATED = True
 
 
 _PATTERN = None
